@@ -125,7 +125,37 @@ where
             tokio::time::sleep(delay).await;
         }
 
-        self.add_state(name.to_string(), OrSWotSet::default()).await
+        // The keyspace has to be set up outside of the lock (we need the clock and to
+        // spawn the actor), so several tasks can get here for the same new keyspace.
+        // Only the first one to register wins, everyone else must use the winner's
+        // actor, otherwise operations end up split across several states.
+        let name: Cow<'static, str> = Cow::Owned(name.to_string());
+        let ts = self.clock.get_time().await;
+        let update_counter = Arc::new(AtomicCell::new(ts));
+
+        let state = super::spawn_keyspace(
+            name.clone(),
+            self.storage.clone(),
+            self.clock.clone(),
+            OrSWotSet::default(),
+            update_counter.clone(),
+        )
+        .await;
+
+        {
+            let mut guard = self.group.write();
+            if let Some(existing) = guard.get(&name) {
+                return existing.clone();
+            }
+            guard.insert(name.clone(), state.clone());
+        }
+
+        {
+            let mut guard = self.keyspace_timestamps.write();
+            guard.insert(name, update_counter);
+        }
+
+        state
     }
 
     /// Loads existing states from the given storage implementation.
